@@ -15,11 +15,13 @@ _ON = False
 def start(repo, relfiles):
     """relfiles: paths relative to the repository root"""
     global _ON
-    if _ON or not hasattr(sys, "monitoring"):
+    if not hasattr(sys, "monitoring"):
         return False
     mon = sys.monitoring
     for rel in relfiles:
         FILES[os.path.realpath(os.path.join(repo, rel))] = rel
+    if _ON:
+        return True      # files added before any of their code ran
     try:
         mon.use_tool_id(TOOL, "vf-cover")
     except ValueError:
@@ -60,3 +62,29 @@ def executable_lines(path, lo, hi):
             if lo <= node.lineno <= hi:
                 lines.add(node.lineno)
     return lines
+
+
+def function_span(path, qualname):
+    """(first line, last line) of the function / method `qualname` ("func" or "Class.method") in a source file"""
+    import ast
+    with open(path) as f:
+        tree = ast.parse(f.read())
+    parts = qualname.split(".")
+    nodes = tree.body
+    node = None
+    for part in parts:
+        node = next((n for n in nodes if isinstance(n, (ast.FunctionDef, ast.ClassDef, ast.AsyncFunctionDef))
+                     and n.name == part), None)
+        if node is None:
+            return None
+        nodes = node.body
+    return node.lineno, node.end_lineno
+
+
+def all_repo_files(repo):
+    out = []
+    for root, _dirs, files in os.walk(os.path.join(repo, "corankco")):
+        for fn in files:
+            if fn.endswith(".py"):
+                out.append(os.path.relpath(os.path.join(root, fn), repo))
+    return sorted(out)
